@@ -399,8 +399,11 @@ impl Message<Msg> for S {
                     "killed": false, "n": self.nh}));
         let out = hook_gate(&self.sh, "Handler").await;
         let v = msg.m * 100 + self.nh;
-        if out == "ok" {
-            hexit(&self.sh.name, "handler", msg.m, "ok", v);
+        if out == "ok" || out == "slow" {
+            if out == "slow" {
+                std::thread::sleep(Duration::from_millis(3));
+            }
+            hexit(&self.sh.name, "handler", msg.m, &out, v);
             self.jl.push("h".into());
             Val(v)
         } else {
